@@ -22,7 +22,7 @@ SIMPLIFIERS = ['rdp', 'grdp', 'rdp_fixed', 'mp_grdp', 'min_point_rdp']
 @st.composite
 def cases(draw, tier):
     max_n = 40 if tier == 'quick' else 160
-    c = draw(S.curves(2, max_n))
+    c = draw(S.curves(2, max_n, big_n=200 if tier == 'quick' else 600))
     n = len(c['pts'])
     simp = draw(st.sampled_from(SIMPLIFIERS))
     case = {'family': c['family'], 'pts': c['pts'], 'simplifier': simp}
